@@ -118,6 +118,21 @@ def check_case(rng, impl, quick):
         for x, y in zip(a.get("args", []), b.get("args", [])):
             if abs(complex(x) - complex(y)) > 1e-9 * max(1.0, abs(complex(y))):
                 return "matched values do not reproduce the program's arguments (%r vs %r)" % (x, y), desc
+    # the same template object, already matched once, instantiated by call with other values: the instantiated object
+    # itself (not re-read from text) must match with those values, and matching again must give the same answer
+    sigma2 = {p: round(rng.uniform(0.11, 2.9), 5) * rng.choice([1, -1]) for p in used}
+    for vals, label in ((sigma, "the first values"), (sigma2, "new values")):
+        try:
+            obj = t(**vals)
+            r2 = match_template(t, obj)
+            r3 = match_template(t, obj)
+        except Exception as e:  # noqa: BLE001
+            return "matching the template against its own instantiation by call (%s, after an earlier match) raises %s: %s" % (label, type(e).__name__, str(e)[:100]), dict(desc, values2=vals)
+        for p in appearing:
+            if p not in r2 or abs(float(r2[p]) - vals[p]) > 1e-9 * max(1.0, abs(vals[p])):
+                return "instantiation by call with %s: parameter %s matched as %r, expected %r" % (label, p, r2.get(p), vals[p]), dict(desc, values2=vals)
+        if sorted(r2) != sorted(r3) or any(abs(complex(r2[k]) - complex(r3[k])) > 0 for k in r2):
+            return "matching twice gives different answers: %r then %r" % (r2, r3), dict(desc, values2=vals)
     # single structural edits must be rejected
     edits = []
     if iops:
@@ -200,7 +215,7 @@ def run(tier, seed):
     return finish(res, level="proof", trusted=fw.TRUSTED_COMMON + ["networkx VF2 returns an isomorphism whenever one exists (uniqueness of the isomorphism is proved)", "sympy.solve solves a*p + b = y"],
                   rule="templates with affine single-parameter positional arguments (parameters repeated across operations), generic real values, "
                        "random reorderings of the instantiated program that preserve the order on every mode; the match must return the values "
-                       "(rel 1e-9) and re-instantiating must reproduce the arguments; single edits (gate, mode list, swap of two differently-labelled "
+                       "(rel 1e-9), also for the object instantiated by call after an earlier match, and twice the same and re-instantiating must reproduce the arguments; single edits (gate, mode list, swap of two differently-labelled "
                        "operations sharing a mode, version, target) must raise TemplateError")
 
 
@@ -219,6 +234,16 @@ def replay(rep):
         except Exception as e:  # noqa: BLE001
             print(type(e).__name__)
             return 1
+    if "values2" in inp:
+        try:
+            match_template(t, impl.loads(inp["program"]))
+            r = match_template(t, t(**inp["values2"]))
+        except Exception as e:  # noqa: BLE001
+            print("match fails:", e)
+            return 1
+        bad = [p for p, v in inp["values2"].items() if "{%s}" % p in inp["template"] and (p not in r or abs(float(r[p]) - v) > 1e-9 * max(1, abs(v)))]
+        print("wrong values:", bad)
+        return 1 if bad else 0
     try:
         r = match_template(t, impl.loads(inp["program"]))
     except Exception as e:  # noqa: BLE001
